@@ -101,6 +101,10 @@ func VHarnessServerSwap() {
 		st3, _ := vhDo(ms.swapRequest, "POST", "/v1/swap?x=1", nil, body)
 		st4, _ := vhDo(ms.swapRequest, "PUT", "/v1/swap", nil, body)
 		v.Assert(v.And(st3 == 400, st4 == 400), "C20 NUT-19: a request that differs in URL or method is not served from the cache (the inputs are spent: it is refused)")
+		// ... nor one whose body differs in a single byte that does not change its JSON meaning (white space appended / prepended)
+		st5, _ := vhDo(ms.swapRequest, "POST", "/v1/swap", nil, append(append([]byte{}, body...), ' '))
+		st6, _ := vhDo(ms.swapRequest, "POST", "/v1/swap", nil, append([]byte{'\n'}, body...))
+		v.Assert(v.And(st5 == 400, st6 == 400), "C20 NUT-19: a request whose body differs by one byte (white space) is not served from the cache")
 	} else {
 		v.Reach("swap-refused")
 		v.Assert(status == 400, "C20 a refused swap answers 400")
